@@ -19,14 +19,16 @@ from bibtexparser.middlewares.fieldkeys import NormalizeFieldKeys
 from bibtexparser.model import Entry, Field, String
 from bibtexparser.library import Library
 
-KS = "aAbB"
+KS = "aAbB\u017f"     # U+017F: lower() leaves it, casefold() maps it to "s"
 
 
 def mk_lib(keys):
+    # start lines DEcrease along the list (fields moved / inserted after parsing): "order" in the statement is the
+    # order of entry.fields, not of the recorded line numbers
     fields = []
     i = 0
     for k in keys:
-        fields.append(Field(k, "v" + str(i)))
+        fields.append(Field(k, "v" + str(i), len(keys) - i))
         i += 1
     e = Entry("article", "thekey", fields)
     s = String("s", "x")
